@@ -24,7 +24,7 @@ def names(rng, n, prefix, pool=None):
 
 
 class Scenario:
-    def __init__(self, n, c, k, sensors, seed=0, transcendental=False, pool=None, linear=False):
+    def __init__(self, n, c, k, sensors, seed=0, transcendental=False, pool=None, linear=False, branchy=False, share_reading=False):
         rng = random.Random(seed * 7919 + n * 131 + c * 17 + k * 5 + sum(sensors))
         self.rng = rng
         self.n, self.c, self.k, self.sensors = n, c, k, list(sensors)
@@ -47,6 +47,10 @@ class Scenario:
                 e = e + coef() * a * b
                 if transcendental:
                     e = e + sympy.sin(a) * b
+                if branchy:
+                    # principal-branch / sign sensitive forms: unsound "simplifications" (asin(sin(u)) -> u, sqrt(u**2) -> u,
+                    # log(exp(u)) -> u for complex u ...) change the value for inputs outside the principal range
+                    e = e + sympy.asin(sympy.sin(a)) + sympy.atan(sympy.tan(b)) * 2 + sympy.sqrt(a**2) * 3 + sympy.acos(sympy.cos(a + b))
             self.state_model[s] = e
         self.sensor_models = {}
         self.sensor_noises = {}
@@ -63,6 +67,14 @@ class Scenario:
             # adversarial insertion orders: expressions in shuffled order, noise in REVERSE sorted reading-name order
             self.sensor_models[sname] = sm
             self.sensor_noises[sname] = {r: float(rng.choice([0.5, 1.5, 2.0, 0.25])) + 0.125 * i for i, r in enumerate(sorted(rnames, reverse=True))}
+        if share_reading and len(self.sensor_names) >= 2:
+            # two sensors call one of their readings the same (different models, different noise)
+            a, b = self.sensor_names[0], self.sensor_names[1]
+            shared = sorted(self.sensor_models[a])[0]
+            if shared not in self.sensor_models[b]:
+                old = sorted(self.sensor_models[b])[-1]
+                self.sensor_models[b] = {(shared if r == old else r): e for r, e in self.sensor_models[b].items()}
+                self.sensor_noises[b] = {(shared if r == old else r): v for r, v in self.sensor_noises[b].items()}
         self.process_noise = {u: float(rng.choice([0.5, 1.25, 2.0])) + 0.25 * i for i, u in enumerate(self.control)}
         self.calibration_map = {cs: float(Fraction(rng.randint(-6, 6), 4)) for cs in self.calibration}
 
